@@ -626,6 +626,25 @@ namespace bloch::runtime {
         m_gcCv.notify_all();
         if (m_gcThread.joinable())
             m_gcThread.join();
+        // Objects that outlive the run (held by statics, by a pending return value or, after a
+        // runtime error, by scopes that were never unwound) are released here, while the class
+        // table and qubit bookkeeping that their release path reads are still alive; member
+        // destruction order would otherwise free the class table first. User destructors are
+        // not run during teardown: their output can no longer be observed and they must not
+        // throw out of a C++ destructor.
+        {
+            std::lock_guard<std::mutex> lock(m_heapMutex);
+            for (auto& w : m_heap) {
+                if (auto obj = w.lock())
+                    obj->skipDestructor = true;
+            }
+        }
+        m_returnValue = {};
+        m_env.clear();
+        for (auto& kv : m_classTable) {
+            if (kv.second)
+                kv.second->staticStorage.clear();
+        }
     }
 
     Value RuntimeEvaluator::lookup(const std::string& name) {
